@@ -81,6 +81,12 @@ Definition m_peaks : machine := {|
   minit := fun _ => ((None, None) : option Q * option Classify.slope);
   mstep := fun _ s i => let '(s', o) := Classify.peaks_step qcmp s (x0 i) in Some (s', [pidx o]);
   mreset := fun _ _ => (None, None) |}.
+(* Peaks<Slope, U>: the slope-driven Filter impl (input 0/1/2 = Rising/None/Falling); reset = with_config *)
+Definition to_slope (q : Q) : Classify.slope := if qeqb q 0 then Classify.Rising else if qeqb q 2 then Classify.Falling else Classify.Flat.
+Definition m_peaks_slopes : machine := {|
+  minit := fun _ => (None : option Classify.slope);
+  mstep := fun _ s i => let '(s', o) := Classify.peaks_slope_step s (to_slope (x0 i)) in Some (s', [pidx o]);
+  mreset := fun _ _ => None |}.
 Definition m_convolve : machine := {|
   minit := fun _ => ([] : list Q); mstep := fun c => olift1 (Convolve.conv_step (length c) c);
   mreset := fun _ _ => [] |}.
@@ -132,4 +138,4 @@ Definition registry : list machine :=
   [m_mean; m_mean_variance; m_exp_mean; m_exp_mean_variance; m_median; m_exp_median; m_max; m_min; m_bounds;
    m_threshold; m_schmitt; m_debounce; m_slopes; m_peaks; m_convolve; m_delay; m_differentiate; m_integrate;
    m_hampel; m_alpha_beta; m_kalman; m_analyze; m_synthesize;
-   m_cache m_integrate; m_cache m_median; m_unit m_integrate; m_id].
+   m_cache m_integrate; m_cache m_median; m_unit m_integrate; m_id; m_peaks_slopes].
